@@ -197,6 +197,11 @@ def dump(in_db, f, **options):
 
     output_names = collections.defaultdict(dict)  # type: typing.Dict[canmatrix.Frame, typing.Dict[canmatrix.Signal, str]]
 
+    # GenSigStartValue has to be defined before the first signal is visited,
+    # otherwise only signals after the first non-zero start value get their attribute
+    if any(s.initial_value != 0 or s.phys2raw(None) != 0 for fr in db.frames for s in fr.signals):
+        db.add_signal_defines("GenSigStartValue", 'FLOAT 0 100000000000')
+
     for frame in db.frames:
         # fix long frame names , warn if the frame name exceeds 32 characters
         if len(frame.name) > 32:
